@@ -68,6 +68,80 @@ def variational_operand_rule(chk, src):
                       "the caller's object stays truncated - invisible while the operand's bond dimension is below the guess limit")
 
 
+def system_side_rule(chk, src, rule):
+    """every blocked decomposition of the chain code that derives its system side from a sweep-direction flag: the `system` argument is evaluated (symbolic interpreter, the
+    expression itself, the assignments of the names it uses along the branch that is live for the flag value, helper methods from source) for both values of the flag and
+    must be 'L' for a sweep to the right and 'R' for a sweep to the left. Literal sides are fixed by design and belong to other rules."""
+    from ..syminterp import SymInterp, Sym, Blob
+    from .chain_rules import class_resolver
+    resolve = class_resolver(src, {"MatrixProduct": MP, "Mps": MPS})
+    n_sites = 0
+    for rel in (MP, MPS):
+        for fi in src.funcs_in(rel):
+            calls = []
+            for n in walk_no_nested(fi.node):
+                if isinstance(n, ast.Call) and unparse(n.func).split(".")[-1] in ("svd_qn", "eigh_qn"):
+                    e = next((k_.value for k_ in n.keywords if k_.arg == "system"), None)
+                    if e is None and unparse(n.func).endswith("svd_qn") and len(n.args) >= 6:
+                        e = n.args[5]
+                    if e is not None and not isinstance(e, ast.Constant):
+                        calls.append((n, e))
+            if not calls:
+                continue
+            owners = sorted({unparse(a.value) for a in ast.walk(fi.node) if isinstance(a, ast.Attribute) and a.attr == "to_right" and isinstance(a.value, ast.Name)})
+            if not owners:
+                raise AnalysisError(f"{fi.where}: a computed system side, but no <object>.to_right is read in the function")
+            cls = fi.qual.split(".")[0] if "." in fi.qual else None
+
+            def value(e, val, depth=0):
+                it = SymInterp(src, resolve, {"logger": Blob("logger")})
+                it.max_depth = 6
+                objs = {}
+                for o in owners:
+                    objs[o] = Sym(o, to_right=val)
+                    objs[o]._cls = cls if o == "self" and cls in ("MatrixProduct", "Mps") else "Mps"
+                env = it.new_env(fi, **objs)
+
+                def ev(x, d):
+                    if isinstance(x, ast.Name) and x.id not in objs and d < 4:
+                        vals = set()
+                        for a in walk_no_nested(fi.node):
+                            if isinstance(a, ast.Assign) and len(a.targets) == 1 and isinstance(a.targets[0], ast.Name) and a.targets[0].id == x.id:
+                                live = True
+                                for g in walk_no_nested(fi.node):
+                                    if isinstance(g, ast.If):
+                                        inb = any(y is a for b_ in g.body for y in ast.walk(b_))
+                                        ino = any(y is a for b_ in g.orelse for y in ast.walk(b_))
+                                        if inb or ino:
+                                            try:
+                                                t = it.ev(g.test, env)
+                                            except AnalysisError:
+                                                continue
+                                            if isinstance(t, bool) and t != inb:
+                                                live = False
+                                if live:
+                                    vals.add(ev(a.value, d + 1))
+                        if len(vals) == 1:
+                            return vals.pop()
+                        raise AnalysisError(f"{fi.where}: the system side `{x.id}` has {len(vals)} live definitions under to_right={val}")
+                    if isinstance(x, ast.IfExp):
+                        return ev(x.body if it.ev(x.test, env) else x.orelse, d)
+                    return it.ev(x, env)
+                return ev(e, depth)
+            seen = set()
+            for n, e in calls:
+                key = unparse(e)
+                if key in seen:
+                    continue
+                seen.add(key)
+                got = (value(e, True), value(e, False))
+                n_sites += 1
+                chk.ob(rule, f"{fi.qual}: system={key}", got == ("L", "R"), fi.where, f"to_right=True -> {got[0]!r}, to_right=False -> {got[1]!r}", "to_right=True -> 'L', False -> 'R'", line=n.lineno,
+                       detail=f"{fi.qual} derives the system side from the sweep direction with the opposite mapping: the isometry is produced on the wrong "
+                              f"side of the bond and the canonical form is silently lost")
+    return n_sites
+
+
 def run(chk):
     src = chk.src
     chk.explanation = (
@@ -85,9 +159,9 @@ def run(chk):
     from .mini_specs import direction_bookkeeping
     direction_bookkeeping(chk, src, "direction")
     chk.rule("svd-mode", "every svd_qn/eigh_qn call outside the two intended bond-growing updates is economic (full_matrices=False)", 10)
-    chk.rule("system-direction", "system = 'L' if <obj>.to_right else 'R' (one mapping at every site that derives the system side from the direction)", 4)
+    chk.rule("system-direction", "the system side handed to a blocked decomposition, evaluated for both values of the sweep-direction flag: 'L' to the right, 'R' to the left", 4)
     chk.rule("absorb-direction", "_update_ms (abstract run): isometry restored on the site, remainder contracted into the neighbour on the sweep side, one cut, singular values once, labels and centre follow", 8)
-    chk.rule("ensure-consistency", "ensure_left/right_canonical: (move_qnidx target, to_right) is (0, True) / (last, False), matching canonicalise's entry assertion", 2)
+    chk.rule("ensure-consistency", "ensure_left/right_canonical (abstract runs with canonicalise from source, 24 start configurations each on 2 and 4 sites): advertised form, label centre and direction flag on return; no sweep assertion fails", 4)
     chk.rule("tree-push", "push_cano_to_parent/child = decompose_to_* followed by merge_to_* with the same node (and child index)", 2)
     svd_mode_rule(chk, src)
     # lossless compression with per-bond limits at the Schmidt ranks needs the limit of the bond that is being cut (rule shared with C05)
@@ -139,63 +213,14 @@ def run(chk):
     ok = len(osv) == 1 and any(k.arg == "full_matrices" and unparse(k.value) == "full_matrices" for k in osv[0].keywords)
     chk.ob("svd-mode", "svd_qn: SVD receives full_matrices", ok, sq.where, [unparse(c)[:80] for c in osv], "optimized_svd(block, full_matrices=full_matrices, ...)")
     # ---- system / direction
-    n_sys = 0
-    for rel in (MP, MPS):
-        for fi in src.funcs_in(rel):
-            for n in walk_no_nested(fi.node):
-                if isinstance(n, ast.Assign) and isinstance(n.targets[0], ast.Name) and n.targets[0].id == "system" and isinstance(n.value, ast.IfExp):
-                    t = n.value
-                    cond = unparse(t.test)
-                    ok = cond.endswith(".to_right") and unparse(t.body) == "'L'" and unparse(t.orelse) == "'R'"
-                    n_sys += 1
-                    chk.ob("system-direction", f"{fi.qual}", ok, fi.where, unparse(t), "'L' if X.to_right else 'R'", line=n.lineno,
-                           detail=f"{fi.qual} derives the system side from the sweep direction with the opposite mapping: the isometry is produced on the wrong "
-                                  f"side of the bond and the canonical form is silently lost")
+    system_side_rule(chk, src, "system-direction")
     # ---- _update_ms: abstract run on abstract tensors (chain_rules.update_ms_rule)
     from .chain_rules import update_ms_rule
     update_ms_rule(chk, src, "absorb-direction")
-    # ---- ensure_*
-    for nm, want in (("ensure_left_canonical", ("0", "True")), ("ensure_right_canonical", ("self.site_num-1", "False"))):
-        fi = src.func(MP, f"MatrixProduct.{nm}")
-        mv = [unparse(c.args[0]).replace(" ", "") for c in ast.walk(fi.node) if isinstance(c, ast.Call) and unparse(c.func) == "self.move_qnidx"]
-        tr_ = [unparse(s.value) for s in ast.walk(fi.node) if isinstance(s, ast.Assign) and unparse(s.targets[0]) == "self.to_right"]
-        cano = any(isinstance(c, ast.Call) and unparse(c.func) == "self.canonicalise" for c in ast.walk(fi.node))
-        from ..flow import sym_eval
-        import sympy as sp
-        N = sp.Symbol("N")
-        envN = {"self.site_num": N, "len(self)": N, "len(self._mp)": N}
-        mvn = [n_ for n_ in ast.walk(fi.node) if isinstance(n_, ast.Call) and unparse(n_.func) == "self.move_qnidx"]
-        same = len(mvn) == 1 and sp.simplify(sym_eval(mvn[0].args[0], envN) - sym_eval(ast.parse(want[0], mode="eval").body, envN)) == 0
-        chk.ob("ensure-consistency", nm, same and tr_ == [want[1]] and cano, fi.where, {"move_qnidx": mv, "to_right": tr_, "canonicalise": cano},
-               {"move_qnidx": want[0], "to_right": want[1]}, line=fi.node.lineno,
-               detail=f"{nm} must start the sweep from the far end in the direction that ends in the advertised canonical form")
-    cn = src.func(MP, "MatrixProduct.canonicalise")
-    asserts = [unparse(s.test).replace(" ", "") for s in ast.walk(cn.node) if isinstance(s, ast.Assert)]
-    chk.ob("ensure-consistency", "canonicalise entry assertion", asserts[:2] == ["self.qnidx==0", "self.qnidx==self.site_num-1"], cn.where, asserts,
-           ["self.qnidx==0 (to_right)", "self.qnidx==self.site_num-1 (else)"], line=cn.node.lineno)
-    # ---- canonical-form checks are mirror images of each other
-    chk.rule("check-mirror", "check_left_canonical tests sites 0..n-2 with check_lortho, check_right_canonical tests the mirror image 1..n-1 with check_rortho", 3)
-    from ..flow import sym_eval
-    import sympy as sp
-    N = sp.Symbol("N")
-    envN = {"len(self)": N, "self.site_num": N, "len(self._mp)": N}
-    rng = {}
-    for nm, meth in (("check_left_canonical", "check_lortho"), ("check_right_canonical", "check_rortho")):
-        fi = src.func(MP, f"MatrixProduct.{nm}")
-        loops = [n for n in ast.walk(fi.node) if isinstance(n, ast.For) and isinstance(n.iter, ast.Call) and unparse(n.iter.func) == "range"]
-        if len(loops) != 1:
-            raise AnalysisError(f"{fi.where}: site loop not found")
-        a = loops[0].iter.args
-        lo = sym_eval(a[0], envN) if len(a) == 2 else sp.Integer(0)
-        hi = sym_eval(a[-1], envN)
-        rng[nm] = (lo, hi)
-        used = [c.func.attr for c in ast.walk(loops[0]) if isinstance(c, ast.Call) and isinstance(c.func, ast.Attribute) and c.func.attr in ("check_lortho", "check_rortho")]
-        chk.ob("check-mirror", f"{nm} uses {meth}", used == [meth], fi.where, used, [meth], line=fi.node.lineno)
-    (ll, lh), (rl, rh) = rng["check_left_canonical"], rng["check_right_canonical"]
-    ok = sp.simplify(ll) == 0 and sp.simplify(lh - (N - 1)) == 0 and sp.simplify(rl - (N - 1 - (lh - 1))) == 0 and sp.simplify((rh - 1) - (N - 1 - ll)) == 0
-    chk.ob("check-mirror", "site ranges: left 0..n-2, right = mirror image 1..n-1", ok, f"{MP}::MatrixProduct.check_right_canonical", {"left": f"range({ll}, {lh})", "right": f"range({rl}, {rh})"},
-           {"left": "range(0, N-1)", "right": "range(1, N)"}, detail="a canonical-form check that skips a site reports a non-canonical state as canonical: ensure_*_canonical then "
-           "returns without sweeping and compress() / bond singular values work on a non-isometric site")
+    # ---- canonical-form checks and ensure_*: abstract runs on chains with per-site orthogonality states (chain_rules.canonical_typestate_rule)
+    chk.rule("check-mirror", "check_left/right_canonical (abstract runs on chains with at most one defective site): verdict = definition, sites 0..n-2 / mirror image 1..n-1", 6)
+    from .chain_rules import canonical_typestate_rule
+    canonical_typestate_rule(chk, src, "check-mirror", "ensure-consistency")
     # ---- tree push
     for nm, dec, mer in (("push_cano_to_parent", "decompose_to_parent", "merge_to_parent"), ("push_cano_to_child", "decompose_to_child", "merge_to_child")):
         fi = src.func(TREE, f"TTNS.{nm}")
